@@ -33,13 +33,15 @@ def instances(tier):
         for bl in bls:
             for vl in vls:
                 out.append((L, f'VH_C10_{kind}_{gt}', [bl, vl, -1], {'weight': 1 + nbytes * bl + 20 * vl}))
+    for wrong in (0, 79):
+        out.append(('ton', 'VH_C10_block_id_ext', [wrong], {'weight': 5}))
     return out
 
 
 CHECK = dict(
-    id='C10', pkgs=['liteclient'], init_pkgs=['std:io', 'liteclient'], instances=instances, opts={'budget_s': 1500, 'unwind': 1200},
+    id='C10', pkgs=['liteclient', 'ton'], init_pkgs=['std:io', 'liteclient'], instances=instances, opts={'budget_s': 1500, 'unwind': 1200},
     gen=[('harness/gen/gen_tl_calls.py', 'liteclient', 'gen_tl.go')],
-    level_text='For EVERY declaration and function of the checked-in lite_api.tl a harness is generated from the schema text: a value of the generated Go type with symbolic fields (all mode-bit combinations, byte strings of the stated lengths incl. the 253/254 boundary, vectors of 0..2 items, both constructors of unions) and, independently, the byte layout the schema prescribes (LE32/LE64, raw int256, Bool ids, length-prefixed zero-padded bytes, LE32 vector count, optional iff mode bit, LE32 constructor id for boxed values). MarshalTL must equal that layout byte for byte, UnmarshalTL of the layout must give the value back and consume everything, and LiteapiRequestDecoder(function id + layout) must return the request; every generated request method (*Client).LiteServer* is run against a stub transport (liteServerRequest replaced through the build overlay): the bytes handed to the transport are function id + schema layout of the request, and any value of the result type laid out per schema comes back as that value.',
+    level_text='For EVERY declaration and function of the checked-in lite_api.tl a harness is generated from the schema text: a value of the generated Go type with symbolic fields (all mode-bit combinations, byte strings of the stated lengths incl. the 253/254 boundary, vectors of 0..2 items, both constructors of unions) and, independently, the byte layout the schema prescribes (LE32/LE64, raw int256, Bool ids, length-prefixed zero-padded bytes, LE32 vector count, optional iff mode bit, LE32 constructor id for boxed values). MarshalTL must equal that layout byte for byte, UnmarshalTL of the layout must give the value back and consume everything, and LiteapiRequestDecoder(function id + layout) must return the request; every generated request method (*Client).LiteServer* is run against a stub transport (liteServerRequest replaced through the build overlay): the bytes handed to the transport are function id + schema layout of the request, and any value of the result type laid out per schema comes back as that value; the hand-written TL form of ton.BlockIDExt is the 80-byte layout of tonNode.blockIdExt for every value, inverts, and refuses other lengths.',
     level_note='The specification serialiser is emitted by harness/gen/gen_tl.py from the schema (it shares no code with package tl). Not decided: the textual identity "checked-in file == generator output".',
     bounds={'quick': {'byte string lengths': [0, 3, 254], 'vector lengths': [0, 2]}, 'thorough': {'byte string lengths': [0, 1, 2, 3, 4, 253, 254, 255, 256], 'vector lengths': [0, 1, 2]}},
     outside_claim=['byte strings >= 2^24', 'the transport below liteServerRequest, lite-server error answers', 'generator output == checked-in file (textual)', 'tlb/integers.go generator pair (see C03)'],
